@@ -2,6 +2,8 @@ package main
 
 import (
 	"fmt"
+	"go/ast"
+	"go/token"
 	"go/types"
 	"strings"
 
@@ -126,6 +128,12 @@ func (fr *Frame) canInline(callee *ssa.Function) bool {
 }
 
 func (fr *Frame) havocMod(st *State, ms *ModSet) {
+	restore := fr.snapshotLocals(st, nil)
+	fr.havocMod0(st, ms)
+	restore(st)
+}
+
+func (fr *Frame) havocMod0(st *State, ms *ModSet) {
 	q := fr.q
 	if ms == nil || ms.All {
 		q.havocAll(st)
@@ -190,11 +198,7 @@ func (fr *Frame) modularCall(ins ssa.Instruction, callee *ssa.Function, ct *Cont
 	q := fr.q
 	st := fr.cur.st
 	env := newSpecEnv(fr, callee)
-	for i, p := range callee.Params {
-		if i < len(args) {
-			env.names[p.Name()] = SV{T: p.Type(), V: args[i]}
-		}
-	}
+	env.bindParams(callee, args)
 	env.st = st
 	env.old = st
 	k := fr.callOrdinal(fnKey(callee))
@@ -691,7 +695,37 @@ func (fr *Frame) loopModSet(li *loopInfo) *ModSet {
 func (fr *Frame) loopHeaderState(li *loopInfo, in *State) *State {
 	hs := in.clone()
 	ms := fr.loopModSet(li)
-	fr.havocMod(hs, ms)
+	// local cells that the loop body does not store to directly keep their contents
+	stored := map[*ssa.Alloc]bool{}
+	var mark func(v ssa.Value)
+	mark = func(v ssa.Value) {
+		switch x := v.(type) {
+		case *ssa.Alloc:
+			stored[x] = true
+		case *ssa.FieldAddr:
+			mark(x.X)
+		case *ssa.IndexAddr:
+			mark(x.X)
+		}
+	}
+	for b := range li.blocks {
+		for _, ins := range b.Instrs {
+			switch x := ins.(type) {
+			case *ssa.Store:
+				mark(x.Addr)
+			case ssa.CallInstruction:
+				// closures called/deferred in the loop may store to captured cells
+				if mc, ok := x.Common().Value.(*ssa.MakeClosure); ok {
+					for _, bnd := range mc.Bindings {
+						mark(bnd)
+					}
+				}
+			}
+		}
+	}
+	restore := fr.snapshotLocals(hs, func(a *ssa.Alloc) bool { return stored[a] || li.blocks[a.Block()] })
+	fr.havocMod0(hs, ms)
+	restore(hs)
 	// ghost scalars may change in loops too
 	for k := range hs.v {
 		if strings.HasPrefix(k, "$") && k != "$top" && ghostLoopHavoc[k] {
@@ -706,10 +740,87 @@ var ghostLoopHavoc = map[string]bool{}
 
 func (fr *Frame) loopSpecFor(li *loopInfo) *LoopSpec {
 	ct := fr.contract
-	if ct == nil {
+	if ct == nil || fr.parent != nil {
 		return nil
 	}
-	return ct.Loops[li.ordinal]
+	ls := &LoopSpec{}
+	if w := ct.Loops[li.ordinal]; w != nil {
+		ls.Invariants = append(ls.Invariants, w.Invariants...)
+		ls.Decreases = w.Decreases
+	}
+	// Houdini candidates derived from the contract itself (DESIGN 1.3 "loops"): every requires clause, every
+	// result-free ensures clause, and the latter with old() read as pre() (= the state at loop entry).
+	for _, c := range autoCandidates(ct) {
+		key := fmt.Sprintf("%d:%s", li.ordinal, c.Text)
+		if fr.autoDrop[key] {
+			continue
+		}
+		c.Auto = true
+		ls.Invariants = append(ls.Invariants, c)
+	}
+	if len(ls.Invariants) == 0 && ls.Decreases == nil {
+		return nil
+	}
+	return ls
+}
+
+var autoCandCache = map[*Contract][]Clause{}
+
+func autoCandidates(ct *Contract) []Clause {
+	if c, ok := autoCandCache[ct]; ok {
+		return c
+	}
+	var out []Clause
+	seen := map[string]bool{}
+	var add func(txt string)
+	add = func(txt string) {
+		c, err := parseClause(txt)
+		if err != nil {
+			return
+		}
+		// split top-level conjunctions: each conjunct is its own candidate
+		if be, ok := c.Expr.(*ast.BinaryExpr); ok && be.Op == token.LAND {
+			add(exprString(be.X))
+			add(exprString(be.Y))
+			return
+		}
+		if pe, ok := c.Expr.(*ast.ParenExpr); ok {
+			add(exprString(pe.X))
+			return
+		}
+		if seen[c.Text] {
+			return
+		}
+		seen[c.Text] = true
+		out = append(out, c)
+	}
+	for _, r := range ct.Requires {
+		add(r.Src)
+	}
+	for _, e := range ct.Ensures {
+		if mentionsResult(e.Expr) {
+			continue
+		}
+		add(e.Src)
+		if strings.Contains(e.Src, "old(") {
+			add(strings.ReplaceAll(e.Src, "old(", "pre("))
+		}
+	}
+	autoCandCache[ct] = out
+	return out
+}
+
+func mentionsResult(e ast.Expr) bool {
+	found := false
+	ast.Inspect(e, func(n ast.Node) bool {
+		if id, ok := n.(*ast.Ident); ok {
+			if id.Name == "err" || strings.HasPrefix(id.Name, "result") {
+				found = true
+			}
+		}
+		return true
+	})
+	return found
 }
 
 func (fr *Frame) invEnv(li *loopInfo, st *State, phiOverride map[*ssa.Phi]Val) *SpecEnv {
@@ -717,11 +828,7 @@ func (fr *Frame) invEnv(li *loopInfo, st *State, phiOverride map[*ssa.Phi]Val) *
 	env.st = st
 	env.old = fr.entry
 	env.pre = li.inState
-	for i, p := range fr.fn.Params {
-		if i < len(fr.params) {
-			env.names[p.Name()] = SV{T: p.Type(), V: fr.params[i]}
-		}
-	}
+	env.bindParams(fr.fn, fr.params)
 	for phi, v := range li.phiVals {
 		if phi.Comment == "" {
 			continue
@@ -753,7 +860,10 @@ func (fr *Frame) loopEntryObligations(li *loopInfo, conds []string, sts []*State
 				q.note(fmt.Sprintf("%s loop %d invariant %d: %v", fnKey(fr.fn), li.ordinal, i, err))
 				continue
 			}
-			q.addObligation(fr, "inv-init", fmt.Sprintf("loop%d:%s", li.ordinal, inv.Text), blockPos(li.header), conds[k], t)
+			o := q.addObligation(fr, "inv-init", fmt.Sprintf("loop%d:%s", li.ordinal, inv.Text), blockPos(li.header), conds[k], t)
+			if inv.Auto {
+				o.Tag = fmt.Sprintf("auto:%d:%s", li.ordinal, inv.Text)
+			}
 		}
 	}
 }
@@ -802,7 +912,10 @@ func (fr *Frame) loopBackObligations(li *loopInfo) {
 				q.note(fmt.Sprintf("%s loop %d invariant %d: %v", fnKey(fr.fn), li.ordinal, i, err))
 				continue
 			}
-			q.addObligation(fr, "inv-pres", fmt.Sprintf("loop%d:%s", li.ordinal, inv.Text), blockPos(li.header), conds[k], t)
+			o := q.addObligation(fr, "inv-pres", fmt.Sprintf("loop%d:%s", li.ordinal, inv.Text), blockPos(li.header), conds[k], t)
+			if inv.Auto {
+				o.Tag = fmt.Sprintf("auto:%d:%s", li.ordinal, inv.Text)
+			}
 		}
 		if li.spec.Decreases != nil && li.decAtHeader != "" {
 			t, err := env.evalInt(li.spec.Decreases.Expr)
